@@ -719,6 +719,26 @@ def dispatch(ex, func, argv, frame):
         pos = a[1]
         b = s.buf.at(add(s.start, pos))
         return or_(eq(pos, 0), eq(pos, s.len()), and_(lt(pos, s.len()), not_(and_(ge(b, 128), lt(b, 192)))))
+    if g == 'core::str::<impl str>::rfind' and f.endswith('::<char>'):
+        s = deref(a[0])
+        ch = a[1]
+        c = ctx_of(ex, s)
+        if c is None or not isinstance(ch, int) or ch >= 128:
+            raise Unsupported('rfind on a non-input buffer / non-ASCII char')
+        # total definition: j = greatest index in [start, end) with S[j] == ch, or start - 1 if there is none
+        j = ex.fresh('rix')
+        ex.assume(z3.And(Z(s.start) - 1 <= j, j < Z(s.end), c.forall_range(j + 1, s.end, 'not_eq%d' % ch, lambda b, ch=ch: z3.Not(b == ch)),
+                         z3.Or(j == Z(s.start) - 1, c.S(j) == ch)))
+        if ex.branch(j >= Z(s.start)):
+            return Some(sub(j, s.start))
+        return NoneV()
+    if g in ('core::slice::<impl [u8]>::starts_with', 'core::slice::<impl [T]>::starts_with', 'core::slice::<impl [u8]>::ends_with', 'core::slice::<impl [T]>::ends_with'):
+        s, pat = deref(a[0]), deref(a[1])
+        if isinstance(pat, Opaque) and pat.kind == 'bytearray':
+            pat = Str(pat.buf, 0, pat.n, False)
+        if isinstance(s, Opaque) and s.kind == 'bytearray':
+            s = Str(s.buf, 0, s.n, False)
+        return starts_with(ex, s, pat) if 'starts_with' in g else ends_with(ex, s, pat)
     if g == 'core::str::<impl str>::contains' and (f.endswith('::<char>') or f.endswith('::<&str>')):
         r = dispatch(ex, f.replace('::contains::', '::find::'), a, frame)
         return r.variant == 'Some'
